@@ -675,7 +675,10 @@ def _apply_edit(ctx, m, t, name, rng):
     elif name == "scale_coordinates":
         m.scale_coordinates(float(rng.choice([2.0, 0.5, 1.5, 4.0])))
     elif name == "iloc_some_rows_pos":
-        m.df.iloc[some, ci("x", "y", "z")] = np.round(rng.uniform(-300, 300, (len(some), 3)), int(rng.integers(0, 3)))
+        vals = np.round(rng.uniform(-300, 300, (len(some), 3)), int(rng.integers(0, 3)))
+        if any(m.df[c].dtype.kind in "iu" for c in ("x", "y", "z")):
+            vals = np.round(vals)       # integer-typed position columns take whole numbers only (pandas 3 refuses lossy assignment)
+        m.df.iloc[some, ci("x", "y", "z")] = vals
     elif name == "renumber_ids":
         ids = m.df["subtomo_id"].to_numpy(dtype=float)
         m.df["subtomo_id"] = rng.permutation(ids) if N > 1 and rng.random() < 0.7 else ids[::-1] + 1000.0
